@@ -114,6 +114,16 @@ pub fn forests(thorough: bool) -> (Vec<Vec<V>>, Value) {
         values.push(V::Obj(vec![(n.clone(), V::Str("a".into())), ("q".into(), V::Null)]));
         values.push(V::Arr(vec![V::Obj(vec![(n.clone(), V::Null)])]));
     }
+    // wide containers: element / property counts around powers of two and byte boundaries
+    for n in [4usize, 16, 255, 256, 257, 1023, 1024, 1025, 4096, 65_535, 65_536, 65_537] {
+        values.push(V::Arr(vec![V::Null; n]));
+        if n <= 4096 {
+            values.push(V::Arr((0..n).map(|i| num(i as f64)).collect()));
+            values.push(V::Arr(vec![V::Arr(vec![V::Bool(true); n]), V::Str("after".into())]));
+            values.push(V::Obj((0..n).map(|i| (format!("p{}", i), if i % 2 == 0 { V::Null } else { num(i as f64) })).collect()));
+            values.push(V::Obj(vec![("list".into(), V::Arr(vec![V::Null; n])), ("z".into(), V::Bool(false))]));
+        }
+    }
     // representative level-1 composites used as children at level 2
     let l1s: Vec<V> = vec![
         V::Arr(vec![]), V::Obj(vec![]), V::Arr(vec![num(1.0)]), V::Obj(vec![("a".into(), V::Bool(true))]),
@@ -184,6 +194,7 @@ pub fn forests(thorough: bool) -> (Vec<Vec<V>>, Value) {
         "atoms": "12 number bit patterns (+-0, +-1, min subnormal, max, +-inf, quiet/signalling/negative NaN, 2^53+1), true/false, null, undefined, strings \"\", a, e-acute, U+1D11E, 65535 and 65536 ASCII bytes, 32768 x e-acute (65536 bytes), 32767 x e-acute + a (65535 bytes), 16384 x U+1D11E, and lengths 9, 255, 256, 0x0300, 0x0900, 0x0909, 0x0A00 (length bytes colliding with marker bytes)",
         "property_names": "\"\", a, b, e-acute, 65535 bytes, 65536 bytes, non-ASCII names of 65535/65536 bytes, and the marker-colliding lengths",
         "distinct_values": nvalues,
+        "wide_containers": "arrays of 4..65537 elements and objects of 4..4096 properties (counts around 256, 1024, 4096, 65536), also nested and followed by further values",
         "sequences": "every value alone; all pairs over a representative subset; all triples over a smaller subset",
         "max_depth": if thorough { 4 } else { 3 },
         "forests": fs.len(),
